@@ -124,6 +124,12 @@ def c03(run):
     cases = []
     for i in range(n):
         cases.append(expr_program(rng, U))
+    # a value compared with itself and with an unmodified copy (equality is by content, not by storage)
+    for enc in U:
+        A_, B_ = sv('va'), sv('vb')
+        stmts_ = progs.setup_value(enc, A_) + [say(('bin', 'eq', v(A_), [v(A_)], 'is')), put(v(A_), B_), say(('bin', 'eq', v(A_), [v(B_)], 'is')),
+                                               say(bin_('noteq', v(B_), v(A_))), say(bin_('lesseq', v(A_), v(B_)))]
+        cases.append((progs.render(rng, [stmts_], plain=True), {'ops': 2, 'lists': 0, 'position': 'self-and-copy'}))
     reqs2 = [run_req(src) for src, _ in cases]
     m2, im2 = run.tie(reqs2, proj=proj_run, functional=True, desc=lambda i: {'program': cases[i][0]})
     for (src, feat), r in zip(cases, im2):
@@ -442,7 +448,9 @@ def c04(run):
         prog = fl.program(depth=rng.randint(1, 3))
         # inject a failing statement at a random top-level position
         k = rng.randrange(len(prog[0]) + 1)
-        bad = rng.choice([say(v(sv('nosuchname'))), say(neg(st('x'))), ('inc', sv('nosuchname2'), 1) if False else say(bin_('less', TRUE, num(1)))])
+        bad = rng.choice([say(v(sv('nosuchname'))), say(neg(st('x'))), say(bin_('less', TRUE, num(1))),
+                          ('if', v(sv('nosuchname')), [], None), ('if', neg(st('x')), [], None), ('if', bin_('less', TRUE, num(1)), [], [say(num(1))]),
+                          ('while', v(sv('nosuchname')), []), ('until', neg(st('x')), [])])
         prefix = prog[0][:k]
         p2 = [prefix + [bad] + prog[0][k:]]
         cases2.append((p2, [prefix], progs.render(rng, p2)))
@@ -874,7 +882,9 @@ class Funcs:
                 out.append(('if', self.expr(scope), self.body(params, depth - 1, in_loop), self.body(params, depth - 1, in_loop) if rng.random() < 0.4 else None))
             elif r < 0.8 and depth > 0:
                 c = sv('cnt' + progs.alpha(rng.randint(0, 5)))
-                out += [put(num(0), c), ('while', ('bin', 'less', v(c), [num(rng.randint(1, 3))], 'is'),
+                # sometimes a loop condition whose evaluation is observable (`noisy taking c` prints)
+                lhs_ = call(sv('noisy'), v(c)) if rng.random() < 0.35 else v(c)
+                out += [put(num(0), c), ('while', ('bin', 'less', lhs_, [num(rng.randint(1, 3))], 'is'),
                                          [('inc', c, 1)] + self.body(params, depth - 1, True))]
             elif r < 0.9:
                 out.append(('return', self.expr(scope), rng.random() < 0.3, False))
@@ -891,6 +901,7 @@ class Funcs:
     def program(self):
         rng = self.rng
         stmts = [put(rng.choice([num(rng.randint(0, 9)), st('g')]), g) for g in self.globals]
+        stmts.append(('func', sv('noisy'), [sv('pp')], [say(st('tick')), ('return', v(sv('pp')), False, False)]))
         for f in self.fnames:
             k = rng.randint(1, 3)
             params = []
@@ -1049,7 +1060,10 @@ def array_history(rng):
         mut = put(num(0), X)
     else:
         mut = ('assign', ('lsub', v(X), num(0)), 'plus', [num(1)], 'let')
-    return init + copy_, mut, dump_stmts(Y), dump_stmts(X)
+    if rng.random() < 0.3:
+        init.append(put_at(bin_('divide', num(0), num(0)), v(X), rng.choice([num(0), st('nan')])))     # a NaN inside
+    same = [say(st('same?')), say(('bin', 'eq', v(X), [v(Y)], 'is')), say(('bin', 'eq', v(Y), [v(Y)], 'is')), say(bin_('noteq', v(Y), v(X)))]
+    return init + copy_ + same, mut, dump_stmts(Y), dump_stmts(X)
 
 
 def c06(run):
